@@ -57,6 +57,9 @@ def units(tier, seed):
     # interpolated ground truth through the manager (dataset + get_ground_truth_now_frame(interpolate=True)), two steps on one manager
     for motion in range(3):
         u.append(dict(task="interp", motion=motion))
+    # map-frame objects whose coordinates are all integers (hand-made / rounded inputs) against the float ego-frame rendering
+    for e in egos:
+        u.append(dict(task="intpos", ego=e))
     return u
 
 
@@ -66,6 +69,14 @@ def bounds(tier, seed):
 
 
 def run_unit(unit, acc):
+    if unit["task"] == "intpos":
+        ego = G.ego_menu(_SEED[0])[unit["ego"]]
+        cx, cy, _ = geom.ego_to_map(11.0, 0.0, 0.0, ego)
+        for X in range(int(round(cx)) - 5, int(round(cx)) + 6):
+            for Y in range(int(round(cy)) - 5, int(round(cy)) + 6):
+                for crit in ("box_per_label", "ring"):
+                    check_case(dict(task="intpos", ego_index=unit["ego"], X=X, Y=Y, crit=crit, seed=_SEED[0]), acc)
+        return
     if unit["task"] == "interp":
         for alpha in (0.25, 0.5, 0.8):
             for off in range(3):
@@ -261,8 +272,59 @@ def _check_interp(case, acc):
     return runs
 
 
+def _check_intpos(case, acc):
+    from pyquaternion import Quaternion
+    from perception_eval.common.label import AutowareLabel, Label
+    from perception_eval.common.object import DynamicObject
+    from perception_eval.common.schema import FrameID
+    from perception_eval.common.shape import Shape, ShapeType
+    ego = G.ego_menu(case.get("seed", 0))[case["ego_index"]]
+    X, Y = case["X"], case["Y"]
+    lx, ly, lyaw = geom.map_to_ego(float(X), float(Y), 0.0, ego)
+    spec = dict(x=lx, y=ly, yaw=lyaw, label="CAR", uuid="g0", size=[2.0, 4.0, 1.5], pts=10, score=0.9)
+    for cfg in (MGR["wide"][1], S.crit_ref_cfg(case["crit"])):
+        if RF.keep(spec, True, cfg)[1] < 1e-6:
+            acc.skip("boundary:filter")
+            return None
+    ov = dict(MGR["wide"][0], **METRICS)
+    runs = {}
+    for rendering in ("base_link", "map"):
+        m = F.manager("detection", rendering, ov)
+        m.frame_results = []
+        if rendering == "base_link":
+            gts = [G.mk3d(spec)]
+            ests = [G.mk3d(dict(spec, uuid="e0"))]
+        else:
+            def mk(uuid):   # integer coordinates, passed through as given
+                return DynamicObject(100, FrameID.MAP, (X, Y, 0), Quaternion(axis=[0, 0, 1], angle=0.0), Shape(ShapeType.BOUNDING_BOX, (2.0, 4.0, 1.5)), None, 0.9,
+                                     Label(AutowareLabel.CAR, "car", []), pointcloud_num=10, uuid=uuid)
+            gts, ests = [mk("g0")], [mk("e0")]
+        acc.exec()
+        fr = m.add_frame_result(100, F.frame_gt(gts, ego), ests, F.crit_config(m.evaluator_config, S.CRIT[case["crit"]]), F.pf_config(m.evaluator_config, S.THR["per_label"]))
+        out = _summ(fr, False)
+        out.pop("scores")
+        runs[rendering] = [out]
+        m.frame_results = []
+    return runs
+
+
 def check_case(case, acc):
     acc.case()
+    if case["task"] == "intpos":
+        runs = _check_intpos(case, acc)
+        if runs is None:
+            return
+        acc.compared()
+        a, b = runs["base_link"][0], runs["map"][0]
+        acc.state(("intpos", case["ego_index"], case["crit"], tuple(a["tp"]), tuple(a["critical_gt"])), nontrivial=not a["critical_gt"])
+        acc.outcome(("intpos", tuple(a["tp"]), tuple(a["fn"])))
+        d = _diff(a, b)
+        if d:
+            acc.violation("ego-vs-map:integer-coordinates:" + "+".join(d), "object at integer map coordinates (%d, %d): the ego-frame and the map-frame rendering differ in %s: ego=%s map=%s" % (
+                case["X"], case["Y"], d, {k: a[k] for k in d}, {k: b[k] for k in d}), case)
+        if acc.cases % 37 == 1:
+            acc.sample(case)
+        return
     if case["task"] == "interp":
         runs = _check_interp(case, acc)
         if runs is None:
